@@ -1,5 +1,5 @@
 CFG = dict(
-    lean_modules=["SaramaVerif.Model.Group", "SaramaVerif.Props.C07", "SaramaVerif.Bridge.C07"],
+    lean_modules=["SaramaVerif.Model.Group", "SaramaVerif.Props.C07", "SaramaVerif.Model.GroupWorld", "SaramaVerif.Props.C07world", "SaramaVerif.Bridge.C07"],
     lean_support=["SaramaVerif.Gen.C07", "SaramaVerif.Driver.GroupTrace"],
     model="C07",
     overlay=["sim", "c07"],
@@ -7,7 +7,9 @@ CFG = dict(
                        "Props.C07.cleanup_after_claims", "Props.C07.return_after_cleanup", "Props.C07.identity_carried",
                        "Props.C07.identity_changes_only_by_join", "Props.C07.fenced_rejoins_fresh", "Props.C07.fenced_until_join",
                        "Props.C07.retry_budget", "Props.C07.other_error_returned_unchanged", "Props.C07.fenced_join_is_fresh",
-                       "Props.C07.session_identity_is_joins",
+                       "Props.C07.session_identity_is_joins", "Props.C07.heartbeats_stop_after_announcement",
+                       "Props.C07world.world_projects", "Props.C07world.member_inv", "Props.C07world.step_winv",
+                       "Props.C07world.no_double_claim_in_generation",
                        "Bridge.C07.joinErrCases_eq", "Bridge.C07.syncErrCases_eq", "Bridge.C07.heartbeatErrCases_eq",
                        "Bridge.C07.classOfCode_matches_join", "Bridge.C07.classOfCode_matches_sync"],
     n={"quick": 260, "thorough": 5000, "search": 400},
@@ -15,19 +17,21 @@ CFG = dict(
     timeout={"quick": 900, "thorough": 3400},
     level="proof",
     assumptions=[
-        "one real member per group; further members exist only as scripted entries of the join response (the real member plans for them as leader), so rebalances caused by other real members joining are represented by coordinator verdicts (RebalanceInProgress / fencing), not by a second live member",
+        "single-member scenarios: further members exist only as scripted entries of the join response (the real member plans for them as leader); multi-member scenarios: 2-3 REAL members share the simulated coordinator (join barrier, held syncs, rebalance on join / leave / expiry); more than 3 live members are covered by the theorems (any number of clients), not by scenarios",
         "claims start at the committed offset / nothing skipped across sessions: decided by the harness oracle on delivered offsets and the coordinator store (C06 proves the offset-manager side)",
         "heartbeat / session / rebalance timing: events, not durations",
     ],
-    trusted_base=["simulated cluster incl. group coordinator (harness/overlay/sim_group.go)", "handler callbacks + coordinator request log merged by a global counter"],
+    trusted_base=["simulated cluster incl. group coordinator (harness/overlay/sim_group.go, sim_groupmulti.go)", "handler callbacks + coordinator request log merged by a global counter"],
     manifest=dict(
         text="Proof over a session acceptor: for EVERY accepted sequence of coordinator requests and handler callbacks - Setup at most once per session and only after a successful join+sync, at most one ConsumeClaim per "
              "partition per session and only between Setup and Cleanup, Cleanup at most once and only when every started ConsumeClaim has returned, Consume returns only after Cleanup, every sync/heartbeat/commit/Setup "
              "carries the identity of the latest successful join, a fenced member rejoins with the empty member id. newSession as a function over coordinator answers: retry budget never exceeded, other errors returned "
              "unchanged, fresh identity after fencing, session identity = join's. The verdict classes are bridged from the three switches of consumer_group.go (regenerated every run). Tie: every scenario's merged "
              "coordinator-request / handler-callback sequence is replayed through the compiled model; the oracle additionally checks claims within the assignment, claim start offsets against the coordinator store, "
-             "and that no offset is skipped across successive sessions.",
-        note="Trusted: Lean kernel, sim coordinator, harness merge order (global counter taken inside the coordinator lock / at callback entry). Not modelled: several live members, timing.",
+             "and that no offset is skipped across successive sessions. Any number of members: a world model (one acceptor per client + the member ids and assignments the coordinator handed out) with "
+             "world_projects (every client's own events are an accepted single-member history, so all theorems above hold for every member whatever the others do) and no_double_claim_in_generation; "
+             "multi-member scenarios (2-3 real members, real rebalances through a join barrier) are replayed per member and, interleaved as they happened, through the world model.",
+        note="Trusted: Lean kernel, sim coordinator, harness merge order (global counter taken inside the coordinator lock / at callback entry). Not modelled: timing; scenarios run at most 3 live members (the theorems quantify over any number).",
         technique="Lean 4 invariant proof over a life-cycle acceptor + bridged case tables + replay of real request/callback sequences + end-to-end oracle",
     ),
 )
